@@ -40,7 +40,15 @@ def judge(src):
     text = src.strip()
     v = RO.check(rep, text)
     if "atok" in h:
-        v += RO.displayed(rep, text, h["atok"].tree, h["atok"], h["skips"])
+        # the lines that could not be parsed, read off the text that *was* parsed (the partial parser blanks them),
+        # not from the auditor's own bookkeeping
+        kept = h["atok"].text.split("\n")
+        skipped = [i for i, l in enumerate(text.split("\n")) if i >= len(kept) or kept[i] != l]
+        v += RO.displayed(rep, text, h["atok"].tree, h["atok"], skipped)
+        marked = RO.marked_lines(rep, text)
+        for i in marked:
+            if i not in skipped:
+                v.append(("syntax-error-misplaced", f"line {i + 1} was parsed but is marked as a syntax error"))
     return v, r
 
 
